@@ -27,6 +27,10 @@ class G:
 
     def annot(self):
         # the errors.New made inside ers.Wrap cannot be named as a target: not listed in ids
+        # (ids divisible by 3 are reserved for ers.Error constants, which errors.As(*ers.Error) finds;
+        # the annotation is an errors.New value)
+        while self.next_id % 3 == 0:
+            self.next_id += 1
         i = self.next_id; self.next_id += 1; return i
 
     def leaf(self):
@@ -228,6 +232,11 @@ def predicate(line, obs, allow_known=False):
                 if m.group(5) != str(len(ps)):
                     return f"Len={m.group(5)} but {len(ps)} constituents"
             for ty, a in enumerate(m.group(3).split(",")):
+                if ty == 3:      # target *ers.Error: the leaves with id % 3 == 0 are ers.Error constants
+                    want = any(const_in(p) for p in ps)
+                    if (a != "-") != want:
+                        return f"errors.As(*ers.Error) = {a} but constituents say {want}"
+                    continue
                 want = any(typed_in(p, ty) for p in ps)
                 if (a != "-") != want:
                     return f"errors.As(type {ty}) = {a} but constituents say {want}"
@@ -277,6 +286,21 @@ def predicate(line, obs, allow_known=False):
             if (b == "1") != want:
                 return f"errors.Is(collector, #{i}) = {b} but constituents say {int(want)}"
     return None
+
+
+def const_in(v):
+    """a comparable ers.Error constant reachable through single and multi wrapping"""
+    if v is None:
+        return False
+    if v[0] == "S":
+        return any(const_in(c) for c in v[2])
+    if v[0] == "L":
+        return v[1] % 3 == 0 or v[1] in (1000, 1001)     # ErrRecoveredPanic / ErrInvariantViolation are ers.Error constants
+    if v[0] == "W":
+        return const_in(v[2])
+    if v[0] == "M":
+        return any(const_in(c) for c in v[2])
+    return False
 
 
 def typed_in(v, ty):
